@@ -232,6 +232,85 @@ def other_foreign(st, zone_list, locals_):
             st.fail('writer-raised-other-than-ValueError-for-foreign-tzinfo', {'exc': type(e).__name__, 'tzinfo': 'naive'}, {'kind': 'naive'}, {})
 
 
+class _FaultyZoneList(object):
+    """Stand-in for pytz.all_timezones whose iteration raises when it reaches position k (an environment fault:
+    MemoryError / KeyboardInterrupt style) — the deviation from the default environment answer."""
+
+    def __init__(self, names, k):
+        self.names, self.k = names, k
+
+    def __iter__(self):
+        for i, n in enumerate(self.names):
+            if i == self.k:
+                raise MemoryError('injected while the zone map is being built')
+            yield n
+
+    def __len__(self):
+        return len(self.names)
+
+    def __contains__(self, x):
+        return x in self.names
+
+    def __getitem__(self, i):
+        return self.names[i]
+
+
+class _PytzProxy(object):
+    def __init__(self, real, zone_list):
+        self._real, self.all_timezones = real, zone_list
+
+    def __getattr__(self, name):
+        return getattr(self._real, name)
+
+
+def interrupted_build_task(points, zone_map):
+    """The first build of the zone-name map is interrupted at position k of the zone list; afterwards the library must
+    behave as if nothing had happened (every later value is written and read with its own zone)."""
+    import hszinc as hs
+    from hszinc import zoneinfo as zi
+    from mc import modstate
+    st = Stats()
+    names = list(pytz.all_timezones)
+    probes = [(n, zone_map[n]) for n in ('Zurich', 'London', 'Abidjan', 'Yakutsk', 'UTC', 'Zulu') if n in zone_map]
+    real = zi.pytz
+    for k in points:
+        modstate.restore()
+        zi.pytz = _PytzProxy(real, _FaultyZoneList(names, k))
+        first = 'no-exception'
+        try:
+            try:
+                hs.dump_scalar(pytz.timezone('Europe/Zurich').localize(datetime.datetime(2021, 7, 1, 12, 0, 0)), mode=hs.MODE_ZINC)
+            except MemoryError:
+                first = 'MemoryError'
+            except Exception as e:  # noqa
+                first = type(e).__name__
+        finally:
+            zi.pytz = real
+        st.count('executions')
+        case = {'kind': 'interrupted-build', 'k': k}
+        problem = None
+        for name, olson in probes:
+            dt = pytz.timezone(olson).localize(datetime.datetime(2021, 7, 1, 12, 0, 0))
+            for fmt in ('zinc', 'json'):
+                try:
+                    text, back = roundtrip(hs, dt, fmt)
+                    zone = getattr(back.tzinfo, 'zone', None) if isinstance(back, datetime.datetime) else None
+                    if not isinstance(back, datetime.datetime) or back.tzinfo is None or (back - EPOCH) // US != (dt - EPOCH) // US \
+                            or back.utcoffset() != dt.utcoffset() or zone != olson or not text.rstrip('"').endswith(name):
+                        problem = '%s %s written as %r, read back as %r' % (fmt, olson, text, back)
+                except Exception as e:  # noqa
+                    problem = '%s %s raised %s' % (fmt, olson, type(e).__name__)
+                if problem:
+                    break
+            if problem:
+                break
+        st.case(('interrupted-build', k), outcome=('interrupted', first, bool(problem)))
+        if problem:
+            st.fail('zone-lost-after-an-interrupted-first-use', {'first_call': first}, case, {'interrupted_at_zone_list_position': k, 'what': problem})
+    modstate.restore()
+    return st
+
+
 def micro_task(zones, values):
     """Sub-second digits: every listed microsecond value (the hazard alphabet of ref/hazards.py) in a few zones, both formats."""
     import hszinc as hs
@@ -267,12 +346,16 @@ def run(ctx):
     mz = [(n, o) for n, o in zone_list if n in ('UTC', 'New_York', 'Kathmandu')]
     for part in pmap(micro_task, [(mz, c) for c in chunks(us_values, ctx.jobs * 2)], ctx.jobs):
         st.merge(part)
+    points = list(range(0, len(pytz.all_timezones) + 1))
+    for part in pmap(interrupted_build_task, [(c, dict(zone_list)) for c in chunks(points, ctx.jobs * 2)], ctx.jobs):
+        st.merge(part)
     seeded_rng(ctx.seed, 'c17').shuffle(zl)
     for part in pmap(zone_task, [(c, ctx.quick) for c in chunks(zl, ctx.jobs * 4)], ctx.jobs):
         st.merge(part)
     locals_ = edge_local_times(zone_list)
     if ctx.quick:
-        offsets = list(range(-840, 841, 15))
+        # every quarter hour, plus the minutes right next to every half hour and to the three-quarter offsets in use
+        offsets = sorted(set(list(range(-840, 841, 15)) + [x + d for x in list(range(-840, 841, 30)) + [345, 525, 765, -570, -210] for d in (-1, 1)]))
         locs = locals_[::2]
     else:
         offsets = list(range(-840, 841))
@@ -289,8 +372,8 @@ def run(ctx):
         'rule': 'complete product: every mapped zone (%d on this host) x %s transition instants (%d in total, + 2 ordinary instants per zone) x 5 '
                 'offsets around the transition x microseconds x {ZINC, JSON}; the zone map in both directions; fixed offsets %s minute(s) apart in '
                 '-14h..+14h x %d local times that are ambiguous/skipped/ordinary in some mapped zone; unmapped pytz zones, pytz.FixedOffset, '
-                'zoneinfo.ZoneInfo; plus %d microsecond values (those on which float arithmetic on the fraction is inexact: ref/hazards.py) in 3 zones x both formats; distinct = distinct (zone or tzinfo, instant, format)' % (
-                    len(zone_list), 'first 2 + last 6' if ctx.quick else 'all tabulated (1850-2100)', ntrans, 15 if ctx.quick else 1, len(locs), len(us_values)),
+                'zoneinfo.ZoneInfo; plus %d microsecond values (those on which float arithmetic on the fraction is inexact: ref/hazards.py) in 3 zones x both formats; the first build of the zone map interrupted by an injected exception at every position of pytz.all_timezones (1 fault per execution), 5 zones x both formats afterwards; distinct = distinct (zone or tzinfo, instant, format)' % (
+                    len(zone_list), 'first 2 + last 6' if ctx.quick else 'all tabulated (1850-2100)', ntrans, '15 (+ the neighbours of the half hours)' if ctx.quick else 1, len(locs), len(us_values)),
         'coverage': {'bounds': {'zones': len(zone_list), 'transition_instants': ntrans, 'fixed_offsets': len(offsets), 'edge_local_times': len(locs), 'hazard_microsecond_values': len(us_values)}},
         'assumptions': ['pytz transition tables and datetime arithmetic are the oracle for instants and offsets',
                         'a Haystack zone name is the last path segment of its Olson name'],
@@ -316,6 +399,8 @@ def replay(case, st):
         loc = datetime.datetime.fromisoformat(case['local'])
         dt = loc.replace(tzinfo=datetime.timezone(datetime.timedelta(minutes=case['offset_min'])))
         judge_foreign(hs, dt, 'fixed%+d' % case['offset_min'], st, dict(zone_list), case)
+    elif k == 'interrupted-build':
+        st.merge(interrupted_build_task([case['k']], dict(zone_list)))
     elif k == 'map':
         map_checks(st)
     else:
